@@ -230,9 +230,12 @@ class NotWF(Exception):
     pass
 
 
-def ref_name(pkt, off):
-    """Strict RFC 1035 reading of the name at `off`: labels of 1..63 octets, a compression pointer must point to a prior
-    occurrence (before the start of the label sequence being read), at most 255 octets in all.
+def ref_name(pkt, off, strict=True):
+    """Reference reading of the name at `off`: labels of 1..63 octets, at most 255 octets in all.
+    strict: a compression pointer must point to a prior occurrence (before the start of the label sequence being read),
+    as RFC 1035 4.1.4 says; this alone excludes loops, any number of hops is fine.
+    not strict: a pointer may point anywhere (forwards too), at most 65 hops (the bound of the Lean relation EncName;
+    beyond it this reading gives no verdict).
     -> (labels, end of the name in the linear stream, pointer hops, pointer-led-to-root-after-a-label)"""
     labels, hops, end, seg, pos, at_hop = [], 0, None, off, off, None
     while True:
@@ -245,9 +248,11 @@ def ref_name(pkt, off):
             tgt = ((c & 0x3f) << 8) | pkt[pos + 1]
             if end is None:
                 end = pos + 2
-            if tgt >= seg:
+            if strict and tgt >= seg:
                 raise NotWF()
             hops += 1
+            if not strict and hops > MAXHOPS_IMPL:
+                raise NotWF()
             at_hop = len(labels)
             pos = seg = tgt
             continue
@@ -266,9 +271,9 @@ def ref_name(pkt, off):
     return labels, end, hops, (at_hop is not None and at_hop == len(labels) and len(labels) > 0)
 
 
-def ref_decode(pkt):
-    """Strict reading of header, question and all `ancount` answer records; None when the datagram is not a well-formed
-    message in that sense (or a label is not presentable as text: contains '.' or NUL)."""
+def ref_decode(pkt, strict=True):
+    """Reference reading of header, question and all `ancount` answer records (names by ref_name in the given mode); None
+    when the datagram is not a well-formed message in that sense (or a label is not presentable as text: '.' or NUL)."""
     try:
         if len(pkt) < 12:
             raise NotWF()
@@ -280,7 +285,7 @@ def ref_decode(pkt):
         info = {"hops": 0, "rootptr": [], "deep": []}
 
         def name_at(off, what):
-            labels, end, hops, rootptr = ref_name(pkt, off)
+            labels, end, hops, rootptr = ref_name(pkt, off, strict)
             if not presentable(labels):
                 raise NotWF()
             info["hops"] = max(info["hops"], hops)
@@ -918,6 +923,10 @@ def oracle_m(toks, impl):
     ref = ref_decode(pkt)
     if ref is not None and impl != ref["show"]:
         return "well-formed message (strict RFC 1035 reading) decoded differently: expected " + ref["show"][:300]
+    if ref is None:
+        ref = ref_decode(pkt, strict=False)
+        if ref is not None and impl != ref["show"]:
+            return "well-formed message (pointers in any direction, <= 65 hops) decoded differently: expected " + ref["show"][:300]
     f = parse_fields(impl)
     rc = int(f["rc"])
     if impl.endswith(" null"):
@@ -940,7 +949,10 @@ def n_reference(toks):
     try:
         labels, end, hops, rootptr = ref_name(pkt, off)
     except NotWF:
-        return None
+        try:
+            labels, end, hops, rootptr = ref_name(pkt, off, strict=False)
+        except NotWF:
+            return None
     total = sum(len(l) + 1 for l in labels)
     if not presentable(labels) or not (total < ns or (total == 0 and ns >= 1)):
         return None
@@ -1024,12 +1036,50 @@ def compare(line, impl, model):
     # implementation may give the faithful answer instead of the model's
     toks = line.split(" ")
     if toks[0] == "m":
-        ref = ref_decode(unhx(toks[1]))
-        return ref is not None and known_deviation(ref) is not None and impl == ref["show"]
+        ref = ref_decode(unhx(toks[1])) or ref_decode(unhx(toks[1]), strict=False)
+        if ref is not None and known_deviation(ref) is not None and impl == ref["show"]:
+            return True
+        return same_but_trailing_dots(impl, model)
     if toks[0] == "n":
         ref = n_reference(toks)
-        return ref is not None and (ref[3] or ref[2] > MAXHOPS_IMPL) and n_faithful(ref, impl)
+        if ref is not None and (ref[3] or ref[2] > MAXHOPS_IMPL) and n_faithful(ref, impl):
+            return True
+        # the stores of a repaired decoder: the '.' before the final NUL replaced by NUL, nothing else
+        return (impl.startswith("ok ") and model.startswith("ok ") and len(impl) == len(model) and model.endswith("2e00")
+                and impl == model[:-4] + "0000")
     return False
+
+
+def same_but_trailing_dots(impl, model):
+    """the two message texts are equal except that names of the model end in a '.' that the implementation does not
+    print: the only visible effect of repairing the pointer-to-root deviation (C37-pointer-to-root-trailing-dot); a
+    well-formed name never ends in '.' in the model's output otherwise"""
+    a, b = impl.split(" "), model.split(" ")
+    if len(a) != len(b):
+        return False
+
+    def name_ok(x, y):
+        return x == y or (y.endswith("2e") and (x == y[:-2] or (x == "-" and y == "2e")))
+    for x, y in zip(a, b):
+        if x == y:
+            continue
+        if x.startswith("q=") and y.startswith("q="):
+            fx, fy = x[2:].split("/"), y[2:].split("/")
+            if len(fx) != 3 or len(fy) != 3 or fx[1:] != fy[1:] or not name_ok(fx[0], fy[0]):
+                return False
+        elif x.startswith("rr=") and y.startswith("rr="):
+            rx, ry = x[3:].split(","), y[3:].split(",")
+            if len(rx) != len(ry):
+                return False
+            for u, v in zip(rx, ry):
+                fu, fv = u.split("/"), v.split("/")
+                if len(fu) != 6 or len(fv) != 6 or fu[1:5] != fv[1:5] or not name_ok(fu[0], fv[0]):
+                    return False
+                if fu[5] != fv[5] and not (fu[1] == str(T_PTR) and name_ok(fu[5], fv[5])):
+                    return False
+        else:
+            return False
+    return True
 
 
 def classify(line, impl, why):
@@ -1041,7 +1091,7 @@ def classify(line, impl, why):
             return "C37-optpack-memcpy-null"
         return None
     if toks[0] == "m" and ("decoded differently" in why or "differs from the encoded" in why):
-        ref = ref_decode(unhx(toks[1]))
+        ref = ref_decode(unhx(toks[1])) or ref_decode(unhx(toks[1]), strict=False)
         if ref is None:
             return None
         dev = known_deviation(ref)
